@@ -91,8 +91,11 @@ def apply(m, ref, op):
         elif name == "pop":
             m_res = m.pop(op[1])
         elif name == "popitem":
+            want_key = ref.keys()[0] if ref.keys() else None
             item = m.popitem()
-            # popitem removes one KEY (all its values); mirror it on the reference
+            # popitem removes one KEY (all its values): the first key of the view, with its last value
+            if want_key is not None and (item[0] != want_key or item[1] != ref.getlist(want_key)[-1]):
+                return "popitem returned %r, the first key is %r with last value %r" % (item, want_key, ref.getlist(want_key)[-1])
             ref.l = [(kk, vv) for kk, vv in ref.l if kk != item[0]]
             m_res = "some-item"
         elif name == "setdefault":
@@ -125,6 +128,10 @@ def views_agree(m, ref):
             v.append("m[%r] = %r, last value is %r" % (k, m[k], ref.getlist(k)[-1]))
     if sorted(m.keys()) != sorted(ref.keys()) or len(m) != len(ref.keys()):
         v.append("keys/len %r (%d) vs %r" % (list(m.keys()), len(m), ref.keys()))
+    elif list(m.keys()) != ref.keys():
+        # "mappings built from the same pairs expose the same views": the key view follows the order of first occurrence
+        # in the pair list, which is what a mapping freshly built from multi_items() shows
+        v.append("key order %r, a mapping built from the same pairs has %r" % (list(m.keys()), ref.keys()))
     return v
 
 
